@@ -14,9 +14,47 @@
 //! * `e2e:<key>`    — anything visible end to end (parser's reading renamed vs parsed output) that none of
 //!   the three stages explains; `jar:<key>` — entry names, non-class entries, re-opening.
 //!
-//! Enumerated spaces (complete within each): the position × reference-kind matrix × 17 remappers; the
+//! The remapper itself is anchored code too (quill's provided trait methods, `Mappings::remapper_b`, the provider
+//! `Jar::get_super_classes_provider` builds): `c07/audit.rs` puts every question of every jar to it three ways —
+//! * `provided:<method>:<kind>` — `map_class`, `map_*_desc`, `map_class_any`, `map_field`, `map_method` against their
+//!   documented composition of the primitive answers (descriptors re-read by the harness' own JVMS 4.3 scanner);
+//! * `engine:<method>:<kind>`   — the primitive answers of the real engines against the table they were built from
+//!   (owner's entry, else the entry reached through the super types the jar states, else none);
+//! * `provider:<kind>`          — the provider against the super class and interfaces the class files state.
+//! A remapper whose provided methods contradict its primitive answers is reported and the jar is not judged.
+//! A refusal (`remap` or `to_mem` returns an error) is accepted exactly when the reference renaming cannot be
+//! encoded as a class file or zip entry (`cfmodel::assemble` says so), never otherwise.
+//!
+//! Clause → where it is decided:
+//! * every reference is what the remapper answers … `remap:` keys, all spaces; positions listed in the evidence
+//! * each class entry stored under the name of its remapped class … `jar:class-entry-name:*`
+//! * non-class entries unchanged … `jar:non-class-entry*` (mixed jars, corpus jars)
+//! * all non-name content unchanged … `remap:`/`writer:`/`e2e:` keys of `cfmodel::sdiff` (flags, instruction shape,
+//!   constants, line numbers, attributes in every class-file version)
+//! * re-opens as a valid jar of well-formed classes … `jar:not-a-valid-zip`, `*:output-class-not-well-formed`
+//!
+//! Enumerated spaces (complete within each): the position × reference-kind matrix × 19 remappers; the
 //! kitchen-sink classes and module descriptors × derived remappers; constant-pool shift classes; jars
-//! mixing classes, resources and directories in five layouts; the javac corpus as jars × derived remappers.
+//! mixing classes, resources and directories in five layouts; the javac corpus as jars × derived remappers;
+//! * class-file versions: the kitchen-sink classes and a module descriptor in each of the 37 versions the reader
+//!   takes (45.0, 45.3, 45.65535, 46.0 … 67.0, 52.3, the preview minors of 56 … 66) × 3 remappers (thorough: every
+//!   matrix cell in every version);
+//! * odd names: the whole matrix in four other spellings of its universe — characters of 2, 3 and 4 bytes at the
+//!   first, middle and last place of packages, classes and members; names that are descriptor letters (`L`, `I`, `V`,
+//!   `LL`, `L$L`, `p/(S)`), default package; names that are prefixes of one another, end in `$`, differ by package or
+//!   case only, a field and a method of one name; names outside the jar with lone surrogates — × 9 remappers, one of
+//!   them with odd target names;
+//! * pairs: all 30 × 30 ordered pairs of reference-carrying instructions in one method (and the second alone in a
+//!   second method) × 4 remappers (thorough 8);
+//! * nesting depth: element values nested 0 … 58 (arrays), 0 … 28 (annotations), 0 … 36 (alternating) levels and
+//!   dynamic constants as bootstrap arguments 0 … 28 levels deep, every reference kind at the bottom;
+//! * strings that grow to the limit: a renamed name makes a class name, field descriptor, array class name, method
+//!   descriptor, field name 65534, 65535, 65536, 65537 bytes long, last character of 1, 2, 3, 6 bytes;
+//! * error paths: every one-position class of the matrix and every kitchen-sink class alone in a jar, remapped once
+//!   per question the code under test puts to a table remapper that fails at exactly that question: the error must
+//!   come back (`remap:error-of-the-remapper-swallowed`, `panic@…`);
+//! * the remapped `ParsedJar` of the sink, shift, mixed, corpus and depth jars is remapped once more with a remapper
+//!   that knows no name and with one that renames every class and member of it.
 
 #[path = "c07/refs.rs"]
 mod refs;
@@ -26,8 +64,12 @@ mod remappers;
 mod matrix;
 #[path = "c07/derive.rs"]
 mod derive;
+#[path = "c07/audit.rs"]
+mod audit;
 #[path = "c07/jar.rs"]
 mod jar;
+#[path = "c07/extra.rs"]
+mod extra;
 
 use std::collections::{BTreeMap, BTreeSet};
 use cfmodel::asm::{assemble, AsmError, Encoding, PoolOrder};
@@ -75,7 +117,9 @@ fn matrix_space(quick: bool) -> (Space, Vec<(String, usize)>) {
 		encs.iter().enumerate().map(|(k, enc)| {
 			let label = format!("matrix/{}/{}/enc{k}", cell.position, matrix::KINDS[cell.kind]);
 			let entries = cell.classes.iter().map(|c| Entry::Class(bytes_of(&label, c, enc))).collect();
-			(prepare_case(Case { label, entries, second_pass: false }), specs.clone())
+			let mut p = prepare_case(Case { label, entries, second_pass: false });
+			p.audit_full = true;
+			(p, specs.clone())
 		}).collect::<Vec<_>>()
 	}).collect();
 	(Space { name: "matrix", cases }, cell_ids)
@@ -292,6 +336,13 @@ fn space_for_label(ctx: &'static Ctx, label: &str) -> Space {
 		"mix" => mix_space(),
 		"corpus" => corpus_space(ctx, &["main", "main8", "main11", "mod", "openmod"], None),
 		"jdk" => jdk_space(ctx),
+		"versions" => extra::versions_space(),
+		"vmatrix" => extra::versions_matrix_space(),
+		"odd" => extra::odd_names_space(false),
+		"pairs" => extra::pairs_space(false),
+		"depth" => extra::depth_space(),
+		"limit" => extra::limit_space(),
+		"failing" => extra::failing_space(),
 		other => fail(&format!("replay: unknown space {other:?}")),
 	}
 }
@@ -369,13 +420,46 @@ fn main() {
 	vcore::set_case_budget_ms(120_000);
 
 	let (matrix, cell_ids) = matrix_space(quick);
-	let mut spaces = vec![matrix, sink_space(quick), shift_space(), mix_space()];
-	if quick {
-		spaces.push(corpus_space(ctx, &["main", "mod", "openmod"], None));
-		spaces.push(corpus_space(ctx, &["main8", "main11"], Some(3)));
-	} else {
-		spaces.push(corpus_space(ctx, &["main", "main8", "main11", "mod", "openmod"], None));
+	// development aid: C07_ONLY=<part of a space name>[,…] runs only these spaces (the floors of the others are then
+	// unmet: such a run can report differences, it can never pass)
+	let only = std::env::var("C07_ONLY").ok();
+	let want = |n: &str| only.as_deref().is_none_or(|o| o.split(',').any(|x| n.contains(x)));
+	let mut spaces: Vec<Space> = Vec::new();
+	if want("matrix") {
+		spaces.push(matrix);
+	}
+	let makers: Vec<(&str, Box<dyn Fn() -> Space>)> = vec![
+		("kitchen-sink", Box::new(move || sink_space(quick))),
+		("constant-pool-shift", Box::new(shift_space)),
+		("mixed-jars", Box::new(mix_space)),
+		("class-file-versions", Box::new(extra::versions_space)),
+		("odd-names", Box::new(move || extra::odd_names_space(quick))),
+		("pairs-of-references", Box::new(move || extra::pairs_space(quick))),
+		("nesting-depth", Box::new(extra::depth_space)),
+		("strings-that-grow-to-the-limit", Box::new(extra::limit_space)),
+		("failing-remapper", Box::new(extra::failing_space)),
+	];
+	for (name, make) in makers {
+		if want(name) {
+			spaces.push(make());
+		}
+	}
+	if !quick && want("matrix-in-every-version") {
+		spaces.push(extra::versions_matrix_space());
+	}
+	if want("javac-corpus") {
+		if quick {
+			spaces.push(corpus_space(ctx, &["main", "mod", "openmod"], None));
+			spaces.push(corpus_space(ctx, &["main8", "main11"], Some(3)));
+		} else {
+			spaces.push(corpus_space(ctx, &["main", "main8", "main11", "mod", "openmod"], None));
+		}
+	}
+	if !quick && want("jdk") {
 		spaces.push(jdk_space(ctx));
+	}
+	if only.is_some() {
+		ctx.note("C07_ONLY is set: only a part of the tier ran");
 	}
 
 	let saved = silence_stderr();
@@ -385,6 +469,7 @@ fn main() {
 	let mut corpus_classes = 0u64;
 	let mut jdk_classes = 0u64;
 	let mut cells_run: BTreeSet<String> = BTreeSet::new();
+	let mut by_space: BTreeMap<String, BTreeMap<String, u64>> = BTreeMap::new();
 	for space in &spaces {
 		let t0 = ctx.elapsed_s();
 		let (st, t) = run_space(ctx, space);
@@ -406,6 +491,11 @@ fn main() {
 		let entry = json!({"jars": jars, "classes_in_jars": classes, "remappers_per_jar": space.cases.first().map(|(_, s)| s.len()).unwrap_or(0), "jar_remaps": st.evaluations, "outcomes": st.outcomes, "wall_s": ((ctx.elapsed_s() - t0) * 10.0).round() / 10.0});
 		let name = if per_space.contains_key(space.name) { format!("{} (secondary groups, slice of the remappers)", space.name) } else { space.name.to_owned() };
 		per_space.insert(name, entry);
+		let numbers = by_space.entry(space.name.to_owned()).or_default();
+		*numbers.entry("jar_remaps".into()).or_insert(0) += st.evaluations;
+		for (k, v) in &st.outcomes {
+			*numbers.entry(k.clone()).or_insert(0) += v;
+		}
 		total = total.merge(st);
 		tally = tally.merge(t);
 	}
@@ -434,6 +524,34 @@ fn main() {
 	ctx.floor("jars re-opened", ctx.tier.pick(5_000, 10_000), total.get("jar:reopened"));
 	ctx.floor("vendored corpus classes in jars", 300, corpus_classes);
 
+	// --- the spaces added for what the first spaces could not see
+	let of = |space: &str, key: &str| by_space.get(space).and_then(|m| m.get(key)).copied().unwrap_or(0);
+	let labels_of = |space: &str| -> Vec<&str> { spaces.iter().filter(|s| s.name == space).flat_map(|s| s.cases.iter().filter(|(_, specs)| !specs.is_empty()).map(|(p, _)| p.label.as_str())).collect() };
+	let versions_run: BTreeSet<&str> = labels_of("class-file-versions").into_iter().filter_map(|l| l.split('/').nth(1)).collect();
+	ctx.floor("class-file versions in which the kitchen-sink classes were remapped (45.0, 45.3, 45.65535, 46.0 … 67.0, 52.3, preview 56 … 66)", extra::all_versions().len() as u64, versions_run.len() as u64);
+	ctx.floor("… at least 37 versions", 37, extra::all_versions().len() as u64);
+	ctx.floor("… classes of these jars written and parsed back", 1_500, of("class-file-versions", "class:output-well-formed"));
+	let universes: BTreeSet<&str> = labels_of("odd-names").into_iter().filter_map(|l| l.split('/').nth(1)).collect();
+	ctx.floor("universes of odd names (multi-byte, descriptor letters, prefixes and `$`, not a string)", 4, universes.len() as u64);
+	ctx.floor("… matrix cells remapped in them", 3 * cells_expected, labels_of("odd-names").len() as u64);
+	ctx.floor("… class entries stored under a new name", 50_000, of("odd-names", "entry:class:stored-under-new-name"));
+	ctx.floor("ordered pairs of reference-carrying instructions in one method", 900, labels_of("pairs-of-references").len() as u64);
+	let deepest = |kind: &str| labels_of("nesting-depth").into_iter().filter_map(|l| { let mut it = l.split('/'); (it.nth(1) == Some(kind)).then(|| it.next().and_then(|d| d.parse::<u64>().ok())).flatten() }).max().unwrap_or(0);
+	ctx.floor("deepest nesting of arrays in element values", 58, deepest("arrays"));
+	ctx.floor("deepest nesting of annotations in element values", 28, deepest("annotations"));
+	ctx.floor("deepest alternating nesting in element values", 36, deepest("alternating"));
+	ctx.floor("deepest nesting of dynamic constants as bootstrap arguments", 28, deepest("dynamic-constants"));
+	ctx.floor("jars whose renamed strings have exactly 65534 or 65535 bytes, written and compared", 80, of("strings-that-grow-to-the-limit", "jar:reopened"));
+	ctx.floor("jars whose renamed strings have 65536 or 65537 bytes, refused", 80, of("strings-that-grow-to-the-limit", "jar:write-refused-because-the-renamed-jar-cannot-be-encoded") + of("strings-that-grow-to-the-limit", "remap:refused-because-the-renamed-jar-cannot-be-encoded"));
+	ctx.floor("remaps in which the remapper failed at one question and the error came back", 3_000, of("failing-remapper", "failing-remapper:error-comes-back"));
+	ctx.floor("… jars of which every question has failed once", cells_expected + 6, labels_of("failing-remapper").len() as u64);
+	ctx.floor("questions put to the remappers themselves", 500_000, total.get("audit:questions-put-to-the-remapper"));
+	ctx.floor("… members the real engine must find through a super type of the jar", 10_000, total.get("audit:engine:member-through-a-super-type"));
+	ctx.floor("… members the real engine must find in the entry of the owner", 100_000, total.get("audit:engine:member-with-an-entry"));
+	ctx.floor("… members without answer that keep their name and get the mapped descriptor", 100_000, total.get("audit:provided:member-without-an-answer-keeps-its-name"));
+	ctx.floor("… super types stated by the classes of the jars, compared with the provider's", 50_000, total.get("audit:provider:super-types-stated"));
+	ctx.floor("remapped jars remapped once more with a remapper that renames everything", 100, total.get("remap:second-pass-that-renames-everything"));
+
 	let specs = matrix::specs();
 	let coverage = json!({
 		"evaluations": total.evaluations,
@@ -454,6 +572,12 @@ fn main() {
 			"module_descriptors": 6,
 			"constant_pool_shift": "236..=262 leading string constants",
 			"jar_layouts": 7,
+			"class_file_versions": versions_run,
+			"odd_name_universes": extra::translits().iter().map(|t| t.name).collect::<Vec<_>>(),
+			"pairs_alphabet": 30,
+			"nesting_depth": {"arrays": 58, "annotations": 28, "alternating": 36, "dynamic_constants": 28, "note": "the independent parser reads element values 64 and dynamic constants 32 levels deep; duke's own limit of 256 is beyond it"},
+			"string_limit": "65534, 65535, 65536, 65537 bytes × last character of 1, 2, 3, 6 bytes × class name, field descriptor, array class name, method descriptor, field name × table and quill engine",
+			"audit": "every class, descriptor and member question the classes of a jar put (matrix, odd names, diagonal of the pairs: every member key of the table asked of every class) answered by the remapper's provided methods, its primitive methods and the table it was built from",
 			"corpus_classes_in_jars": corpus_classes,
 			"corpus_quick": "groups main, mod, openmod × all derived remappers; main8, main11 × the first 3",
 			"jdk_classes_in_jars": jdk_classes,
@@ -470,5 +594,8 @@ fn main() {
 		"classes duke's reader refuses are left out of the jars (C01 reports them); losses of duke's reader and writer are reported under their own keys (plain / writer:) and are C01's / C02's business",
 		"remappers are injective on the class names of the jar (a jar cannot hold two entries of one name)",
 		"zip metadata (timestamps, compression method, entry order) is not part of the statement and is not compared",
+		"a refusal of remap or to_mem is accepted only when cfmodel's assembler cannot encode the reference renaming either (a constant-pool string of more than 65535 bytes of modified UTF-8) or an entry name exceeds 65535 bytes",
+		"audit of the remapper: a descriptor is read by JVMS 4.3 (outside a class name `L` starts a class name that ends at the next `;`); when several super types of an owner have different entries for a member any of their answers is accepted; names that are no UTF-16 strings (lone surrogates) cannot have entries in a mapping table",
+		"the second pass that renames everything is judged against the reference renaming of the trees the first pass produced (a loss of the first pass is charged once)",
 	]);
 }
